@@ -86,6 +86,9 @@ pub enum Op {
     Interleave2 { a: IterSrc, b: IterSrc },
     /// clone the searcher, run the inner op on the clone, drop the clone
     WithClone(Box<Op>),
+    /// build a private searcher from the same spec, clone it, DROP THE ORIGINAL,
+    /// run the inner op on the surviving clone
+    OrphanClone(Box<Op>),
     /// build an iterator, take `first` items, park it in `slot`
     StartIter { slot: usize, src: IterSrc, first: usize },
     /// take the iterator parked in `slot` (possibly by another thread) and drain it
